@@ -1,5 +1,6 @@
 #include "ArtFile.h"
 #include <stdexcept>
+#include <cstdint>
 
 namespace OP2Utility
 {
@@ -14,7 +15,8 @@ namespace OP2Utility
 	{
 		for (const auto& imageMeta : imageMetas) {
 			// Bitwise operation rounds up to the next 4 byte interval
-			if (imageMeta.scanLineByteWidth != ((imageMeta.width + 3) & ~3)) {
+			// Note: Round in 64 bits. In 32 bits a width within 3 of UINT32_MAX wraps around to 0
+			if (imageMeta.scanLineByteWidth != ((static_cast<uint64_t>(imageMeta.width) + 3) & ~static_cast<uint64_t>(3))) {
 				throw std::runtime_error("Image scan line byte width is not valid. It must be the width of the image rounded up to a 4 byte interval.");
 			}
 
